@@ -27,8 +27,9 @@ def rename_types(schema, mapping):
 
 
 # Which members the SDL rendering with unfolded extensions moves into `extend type` blocks.
-EXT_PLAN = {"Robot": {"fields": ["owner", "serial"], "ifaces": ["Node"]},
-            "Person": {"fields": ["lonely", "older", "colors"], "ifaces": ["Named"]},
+EXT_PLAN = {"Robot": {"fields": ["owner", "serial"], "ifaces": ["Node"]},                     # extension after the type
+            "Person": {"fields": ["lonely", "older", "colors"], "ifaces": ["Named"], "first": True},  # ... before it
+            "Cat": {"fields": [], "ifaces": ["Named"]},                                       # `implements` only
             "RootQ": {"fields": ["named", "version"], "ifaces": []}}
 
 
@@ -53,6 +54,7 @@ def schema_from_tla(sj, variant="full", explicit_roots=True):
             if k == "OBJECT":
                 o["interfaces"] = [i for i in sj["order"] if i in t["ifaces"]]
                 o["ext_interfaces"] = EXT_PLAN.get(name, {}).get("ifaces", [])
+                o["ext_first"] = bool(EXT_PLAN.get(name, {}).get("first"))
         elif k == "UNION":
             o["members"] = list(t["members"])
         elif k == "ENUM":
